@@ -5,7 +5,7 @@ import ring_common as R
 
 PROP = 'C14'
 BUILDS, TRANSLATORS, MINIMISE, SHARD_TIMEOUT, ASSUMPTIONS, RULE = R.BUILDS, R.TRANSLATORS, R.MINIMISE, R.SHARD_TIMEOUT, R.ASSUMPTIONS, R.RULE
-EXTRA_THEOREM_MODULES = []
+EXTRA_THEOREM_MODULES = R.EXTRA_THEOREM_MODULES
 classify, nontrivial = R.classify, R.nontrivial
 
 
@@ -21,11 +21,9 @@ def generate(rng, tier):
 def signatures(case, lines):
     out = []
     for l in lines:
-        m = re.search(r'delivered≠published kind=(\S+) missing=\[([^\]]*)\] extra=\[\] producer=(\w+)', l)
-        if m and m.group(3) == 'single' and m.group(2).strip() == '0':
-            out.append({'producer': 'single', 'missing': [0]})
-        elif m and m.group(3) == 'multi' and m.group(1) == 'stranded-tail':
-            out.append({'producer': 'multi', 'kind': 'stranded-tail'})
+        m = re.search(r'all claimants published but cursor=(\d+) highest-claimed=(\d+) producer=multi', l)
+        if m and int(m.group(1)) < int(m.group(2)):
+            out.append({'producer': 'multi', 'kind': 'stranded'})
         else:
             out.append(None)
     return out
